@@ -83,6 +83,7 @@ def validate_robust(ctx, trace_path, bases_events, kind):
         e = evs[idx]
         bad = {p: o for p, o in e["outcomes"].items() if o not in ("ok", "err")}
         rec = {"what": "the reader did not answer with a value or an error", "kind": kind, "class": "reader_" + (sorted(set(bad.values()))[0] if bad else "budget"),
+               "bomb": e["faults"][0].get("name", "") if e["faults"][0]["k"] == "bomb" else "",
                "base": e["base"], "faults": e["faults"], "outcomes": e["outcomes"], "panics": e.get("panics", {}), "died": e.get("died"), "stderr": e.get("stderr"),
                "cpu_ms": e["cpu_ms"], "peak_kb": e["peak_kb"], "problems": [v for tag, v in res.prints if tag == "PROBLEMS"][-1:],
                "reproduce": "vh c01 run --bases work/C01/bases.ndjson --in <file with this case as one JSON line {base, faults}> --out t --progress p"}
@@ -135,7 +136,7 @@ def run(ctx):
     if n < 1000:
         raise vlib.ToolError("fault catalogue too small: %d" % n)
     tp = os.path.join(ctx.work, "robust.ndjson")
-    deaths = run_cases(bases, of, tp, ctx.work, ctx.seed, n)
+    deaths = run_cases(bases, of, tp, ctx.work, ctx.seed, n, wall_per_case=900 if thorough else 240)
     ctx.extra["worker_deaths"] = deaths
     validate_robust(ctx, tp, base_events, "fault-case")
     ctx.traces += 1
